@@ -44,7 +44,11 @@ RULE = (
     "evaluator; the oracle compares the Python evaluator's verdict on the published vs the generated "
     "schema. In addition random small acyclic $defs tables over every modelled keyword (synthetic schemas: "
     "items after prefixItems, type lists, const/enum on objects with permuted members, allOf, ...) are "
-    "judged three-way on data values, instances and mutated instances. Non-trivial = the document is a non-empty object or array and a verdict (true/false) "
+    "judged three-way on data values, instances and mutated instances. Three whole-model cases probe the trusted "
+    "link `the generated schema describes what the decoder takes`: `order` (schemas independent of the rebuild "
+    "order), `aliases` (member names the decoder reads = properties shown) and `enums` (every enumeration type: the "
+    "decoder, strict and lax, takes exactly the listed values — all 1-character strings, near misses of values and "
+    "member names, non-strings). Non-trivial = the document is a non-empty object or array and a verdict (true/false) "
     "is reached; distinct by (file, root, document)."
 )
 TRUSTED = [
@@ -1236,9 +1240,9 @@ def cases(rng, tier):
     elif tier == "thorough":
         specs = _doc_specs(rng, names, 300, 1200, 2000) + _syn_specs(rng, 500, 4)
     else:  # search: oracle only
-        return [{"kind": "order"}, {"kind": "aliases"}] + _doc_specs(rng, names, 60, 500, 900)
+        return [{"kind": "order"}, {"kind": "aliases"}, {"kind": "enums"}] + _doc_specs(rng, names, 60, 500, 900)
     _js_batch(specs)
-    return [{"kind": "order"}, {"kind": "aliases"}] + specs
+    return [{"kind": "order"}, {"kind": "aliases"}, {"kind": "enums"}] + specs
 
 
 def run_impl(spec) -> str:
@@ -1326,6 +1330,8 @@ def oracle(spec) -> list[Failure]:
         return [f] if f else []
     if kind == "aliases":
         return _alias_failures()
+    if kind == "enums":
+        return _enum_failures()
     if kind == "order":
         r = reordered()
         if "error" in r:
@@ -1386,6 +1392,56 @@ def _alias_failures():
                 if len(shown) != 1 or keys - props:
                     fails.append(Failure(f"{c.__module__.split('.')[-1]}.{c.__name__}.{fname}", "decoder-reads-members-the-schema-does-not-define",
                                          f"decoder reads {sorted(keys)}, schema properties {sorted(keys & props)}"))
+    return fails[:3]
+
+
+def _enum_failures():
+    """Same enumerations: the values the decoder takes for a field of an enumeration type are exactly the values the
+    published schema lists for it.  An `Enum` is decoded by value lookup with no coercion, so the comparison is
+    exact on every probe: all one-character strings of printable ASCII, near misses of every listed value and of
+    every member name (case, doubling, padding), and a few non-strings."""
+    import enum
+    import importlib
+    import inspect
+
+    import pydantic
+
+    fails = []
+    seen = set()
+    cfgs = configurations()[0]
+    for m in ("tys", "ops", "serial_hugr", "extension", "testing_hugr"):
+        mod = importlib.import_module("hugr._serialization." + m)
+        for name, c in inspect.getmembers(mod, inspect.isclass):
+            if not (issubclass(c, enum.Enum) and c.__module__.startswith("hugr._serialization")) or c in seen:
+                continue
+            seen.add(c)
+            listed = None
+            for cfg in cfgs:
+                d = cfg["pub"].get("$defs", {}).get(name)
+                if isinstance(d, dict) and "enum" in d:
+                    if listed is not None and listed != d["enum"]:
+                        fails.append(Failure(f"schema:{cfg['name']}:{name}", "enumeration-differs-between-files", f"{listed} vs {d['enum']}"))
+                    listed = d["enum"]
+            if listed is None:
+                continue
+            probes = [chr(k) for k in range(32, 127)] + [0, 1, None, True, [], {}]
+            for v in list(listed) + [x.name for x in c]:
+                if isinstance(v, str):
+                    probes += [v, v.lower(), v.upper(), v.capitalize(), v + v, " " + v, v + " ", v[:-1], v + "_"]
+                probes += [[v], {"value": v}]
+            ta = pydantic.TypeAdapter(c)
+            for strict in (False, True):
+                for pr in probes:
+                    try:
+                        ta.validate_json(json.dumps(pr), strict=strict)
+                        took = True
+                    except Exception:  # noqa: BLE001
+                        took = False
+                    if took != any(eqv(pr, v) for v in listed):
+                        fails.append(Failure(f"{c.__module__.split('.')[-1]}.{name}", "decoder-and-schema-disagree-on-enumeration-value",
+                                             f"{'strict' if strict else 'lax'} decoder {'takes' if took else 'refuses'} "
+                                             f"{json.dumps(pr)}; the published schema lists {json.dumps(listed)}"))
+                        return fails
     return fails[:3]
 
 
